@@ -6,7 +6,7 @@ unit step along the minor axis, the major axis is the axis of the larger |delta|
 end point.  NOT decided (inductive numeric invariants of the error accumulator): that the minor coordinate arrives at
 `end`, the half-pixel distance bound, and every clause about stroked (thick) lines."""
 from mirq.origin import show, walk
-from mirq.pat import match
+from mirq.pat import match, strip_refs
 from mirq.paths import Paths, Unsupported, show_fact, show_eff, variant_of, NONE
 from rules.c14 import field_index
 from rules.c10 import fold
@@ -27,6 +27,11 @@ def run(ctx, rep):
     step_shape(prog, rep)
     parameters(prog, rep)
     centred(prog, rep)
+    try:
+        pass_through(prog, rep)
+    except Exception as e:
+        import traceback; traceback.print_exc()
+        rep.fail("R17.6", "engine", "pixel iterator analysis crashed: %r" % (e,), status="undecided")
 
 
 def _delta(line):
@@ -289,3 +294,66 @@ def centred(prog, rep):
     rep.floor("R17.5", "ParallelsIterator::new / Line::extents call sites reachable from the line's styled code", n[0], 3)
     rep.check(not bad, "R17.5", "line:centred-stroke", "a styled Line must build its stroke with StrokeOffset::None (centred on the line, independent of the style's stroke alignment): %s" % "; ".join(bad[:3]),
               at=(first.span if first else ""), fn=(first.path if first else ""), detail={"reachable_functions": len(reach), "sites": n[0]})
+
+
+def pass_through(prog, rep):
+    """R17.6 the styled line's pixel iterator passes on every point of its point iterator: with a stroke colour, each call
+    of `next` pulls exactly one item from ThickPoints::next on the iterator's own state, ends iff that pull ends, and
+    otherwise returns Pixel(the pulled point, the stroke colour).  A filter or a search (`find`) over the point iterator
+    drops points of the line (the stroke no longer contains the thin line; width 1 no longer equals points())."""
+    from mirq.paths import variant_of, show_fact
+    SP = "embedded_graphics::primitives::line::styled::StyledPixelsIterator"
+    TP = "embedded_graphics::primitives::line::thick_points::ThickPoints"
+    try:
+        nx = prog.method1(SP, "next", "core::iter::traits::iterator::Iterator")
+        fi = {f["name"]: i for i, f in enumerate(prog.adts[SP]["variants"][0]["fields"])}
+        it_idx = [i for i, f in enumerate(prog.adts[SP]["variants"][0]["fields"]) if isinstance(f["ty"], dict) and f["ty"].get("adt") == TP][0]
+    except Exception as e:
+        rep.fail("R17.6", "line:pixels-pass-through", "anchor lost: %r" % (e,), status="undecided")
+        return
+    try:
+        summs = Paths(prog, inline=lambda g: prog.is_new(g)).of(nx)
+    except Unsupported as e:
+        rep.fail("R17.6", "line:pixels-pass-through", "the pixel iterator's next() cannot be summarised (a loop or search over the point iterator?): %s" % e, status="undecided", at=nx.span, fn=nx.path)
+        return
+    state = ("field", P(1, "self"), it_idx)
+
+    def is_pull(t):
+        t = strip_refs(t)
+        return t[0] == "call" and t[1].endswith("::next") and TP in t[1] and len(t[3]) == 1 and strip_refs(t[3][0]) == state
+    bad, n_some, n_none = [], 0, 0
+    for sm in summs:
+        pulls = [e for e in sm.effects if e[0] == "call" and is_pull(e[1])]
+        others = [e for e in sm.effects if e not in pulls]
+        vo = variant_of(sm.ret)
+        cond = "; ".join(show_fact(f) for f in sm.facts)
+        if others:
+            bad.append("a path [%s] has other effects on the iterator: %s" % (cond[:120], show(others[0][1] if others[0][0] == "call" else others[0][2], maxd=3)))
+            continue
+        if not pulls:
+            # without a pull the call must end the iteration for lack of a colour
+            if not (vo and vo[1] == "None"):
+                bad.append("a path [%s] returns %s without pulling a point" % (cond[:120], show(sm.ret, maxd=3)))
+            continue
+        if len(pulls) != 1:
+            bad.append("a path [%s] pulls %d points" % (cond[:120], len(pulls)))
+            continue
+        pv = {tuple(f[2]) for f in sm.facts if f[0] == "variant" and is_pull(f[1])}
+        other_conds = [f for f in sm.facts if not (f[0] == "variant" and (is_pull(f[1]) or strip_refs(f[1])[0] == "field"))]
+        if other_conds:
+            bad.append("the outcome depends on %s" % show_fact(other_conds[0]))
+            continue
+        if pv == {("None",)} and vo and vo[1] == "None":
+            n_none += 1
+        elif pv == {("Some",)} and vo and vo[1] == "Some" and sm.ret[2]:
+            px = strip_refs(sm.ret[2][0])
+            okp = px[0] == "agg" and len(px[2]) == 2 and strip_refs(px[2][0])[0] == "payload" and is_pull(strip_refs(px[2][0])[1])
+            if okp:
+                n_some += 1
+            else:
+                bad.append("the pixel is %s, not Pixel(the pulled point, colour)" % show(px, maxd=4))
+        else:
+            bad.append("a path [%s] returns %s" % (cond[:120], show(sm.ret, maxd=3)))
+    rep.check(not bad and n_some >= 1 and n_none >= 1, "R17.6", "line:pixels-pass-through",
+              "StyledPixelsIterator::next of a line must return Pixel(p, colour) for exactly the next point p of its ThickPoints iterator: %s" % ("; ".join(bad[:2]) or "no passing path found"),
+              at=nx.span, fn=nx.path, detail={"paths": len(summs)})
